@@ -41,19 +41,19 @@ def profile(name, **kw):
 
 profile("C09", tx=dict(edit=8, query=5, relabel=1, derive_edit=1, persist=0, build=1), steps=(30, 120))
 profile("C19", tx=dict(edit=6, query=2, faults=4, relabel=1, build=1), steps=(30, 90), fault_rate=(0.05, 0.3))
-profile("C10", tx=dict(edit=3, query=1, derive_edit=8, relabel=1, react=1, persist=1, algebra=2, build=1),
+profile("C10", tx=dict(edit=3, query=1, derive_edit=8, relabel=1, react=1, persist=1, algebra=2, isomers=1, build=1),
         nontarget=True, check_all_every=4, callers=(2, 4))
 profile("C11", tx=dict(edit=3, query=2, relabel=8, twin=1, build=1))
 profile("C01", tx=dict(edit=4, query=1, twin=8, relabel=1, derive_edit=1, build=2), max_atoms=(1, 12))
 profile("C03", tx=dict(edit=4, query=2, twin=8, pair=1, build=2), max_atoms=(1, 12))
 profile("C02", tx=dict(edit=4, pair=5, mutant=6, derive_edit=2, wlpair=2, build=2), small=True, max_atoms=(2, 8))
-profile("C05", tx=dict(edit=3, enum=8, symnum=2, derive_edit=2, wlpair=2, build=2), small=True, max_atoms=(2, 8),
+profile("C05", tx=dict(edit=3, enum=8, symnum=2, derive_edit=2, wlpair=2, build=2), small=True, max_atoms=(2, 13),
         callers=(2, 4))
 profile("C06", tx=dict(edit=3, enant=6, derive_edit=2, build=2), small=True, max_atoms=(2, 7),
         classes=("SMG", "SCRG"))
 profile("C08", tx=dict(edit=2, react=8, build=1), classes=("MG", "SMG", "CRG", "SCRG"), max_atoms=(3, 8))
 profile("C15", tx=dict(edit=5, persist=8, query=1, relabel=1, build=2))
-profile("C16", tx=dict(edit=3, pair=4, mutant=4, flip=4, isomers=4, build=3), small=True, max_atoms=(2, 7),
+profile("C16", tx=dict(edit=3, pair=4, mutant=4, flip=4, isomers=4, react=2, build=3), small=True, max_atoms=(2, 8),
         callers=(2, 3))
 profile("C17", tx=dict(edit=4, algebra=8, query=1, build=2))
 
@@ -990,7 +990,7 @@ class Gen:
 
     def tx_enum(self):
         rng = self.rng
-        c = [s for s in self.graphs(nonempty=True) if len(self.w.slots[s].model.atoms) <= 10]
+        c = [s for s in self.graphs(nonempty=True) if len(self.w.slots[s].model.atoms) <= 24]
         if not c or not self.room():
             yield from self.tx_build()
             return
@@ -1084,7 +1084,7 @@ class Gen:
             for s in self.graphs(unlocked=True)[:4]:
                 yield dict(k="drop", s=s)
         anc = self.slot_id()
-        for op in self.tx_build(kind=base_kind, size=rng.randint(3, self.cfg["max_atoms"]),
+        for op in self.tx_build(kind=base_kind, size=rng.randint(3, max(3, self.cfg["max_atoms"])),
                                 motif=rng.choice(("star", "tetra4", "ez", "ring", "chain", "random"))):
             op = dict(op)
             if "dst" in op and op["k"] == "new":
